@@ -76,7 +76,30 @@ def _k1(ctx: Context) -> None:
         v = P.const_of(f"{M}.{name}")
         ok = isinstance(v, StructMethod) and v.method == meth and v.struct.fmt == "<H"
         ck.check("C05.K1", ok, f"{name} = Struct('<H').{meth}", f"{M}:{name}", f"{name} is {v}: the length prefix must be an unsigned little-endian 16-bit value", loc)
-    pn = P.const_of(f"{CH}.PACK_NONCE")
+    PROBE = 0x0102030405060708
+    pn_q = f"{CH}.PACK_NONCE"
+    if pn_q in P.functions:
+        # the packer written as a function: its layout by folding the returned value on a probe counter
+        g = P.functions[pn_q]
+        gcfg = ctx.cfg(pn_q)
+        rets = [n for n in gcfg.nodes if n.kind == "return" and n.exprs and n.exprs[0] is not None]
+        probe = None
+        if len(rets) == 1 and len(g.pos_params) == 1 and not g.is_async and not g.is_generator:
+            from ..engine.terms import _subst_params, fold_term
+
+            try:
+                probe = fold_term(_subst_params(strip_sites(_terms(ctx).of(gcfg, rets[0], rets[0].exprs[0])), {g.pos_params[0]: ("const", PROBE)}))
+            except Exception:  # noqa: BLE001 - not a constant layout: not decided
+                probe = None
+        if probe is None:
+            ck.unknown("C05.K1", "PACK_NONCE is a function whose result is not a constant byte layout of its argument", g.loc())
+        else:
+            ck.check("C05.K1", bytes(probe) == b"\x00\x00\x00\x00" + PROBE.to_bytes(8, "little"), "PACK_NONCE(c) = 4 zero bytes + 64-bit little-endian counter (12 bytes)",
+                     f"{CH}:PACK_NONCE", f"PACK_NONCE({PROBE:#x}) is {bytes(probe).hex()}: the nonce layout must be 4 zero bytes followed by the little-endian 64-bit counter", g.loc())
+        npad = P.const_of(f"{CH}.NONCE_PADDING")
+        ck.check("C05.K1", npad == b"\x00\x00\x00\x00", "NONCE_PADDING = 4 zero bytes", f"{CH}:NONCE_PADDING", f"NONCE_PADDING is {npad!r}", "aiohomekit/crypto/chacha20poly1305.py:1")
+        return
+    pn = P.const_of(pn_q)
     # any spelling of the packer is fine (partial(Struct("<LQ").pack, 0), Struct("<4xQ").pack ...): what counts is the layout
     # of the 12 bytes, obtained by folding the constant packer on a probe counter
     fmt, pre = None, ()
@@ -215,12 +238,16 @@ def _t1(ctx: Context) -> None:
     # emitted items, in order: pack(len(chunk)) then encrypt(aad=len bytes, nonce=PACK_NONCE(counter), chunk)
     chunk_t = strip_sites(T.var_after(cfg, take[0], take[2].id)) if isinstance(take[2], ast.Name) else None
     emits = []
+    aug_bufs: set[str] = set()
     for n in sorted(cfg.nodes, key=lambda x: x.lineno):
         if not in_loop(n):
             continue
         for c in ctx.calls(n):
             if isinstance(c.func, ast.Attribute) and c.func.attr in ("append", "extend") and c.args:
                 emits.append((n, strip_sites(T.of(cfg, n, c.args[0])), c.func.attr))
+        if n.kind == "stmt" and isinstance(n.ast, ast.AugAssign) and isinstance(n.ast.op, ast.Add) and isinstance(n.ast.target, ast.Name) and isinstance(n.ast.value, (ast.Tuple, ast.List)):
+            emits.append((n, strip_sites(T.of(cfg, n, n.ast.value)), "extend"))  # `frames += (a, b)` is `frames.extend((a, b))`
+            aug_bufs.add(n.ast.target.id)
     flat = []
     for n, t, how in emits:
         if how == "extend" and t[0] in ("tuple", "list"):
@@ -253,6 +280,7 @@ def _t1(ctx: Context) -> None:
         n, c = sl[0]
         arg = c.args[0] if c.args else None
         bufs = {_u(cc.func.value) for _n, cc in [(e[0], x) for e in emits for x in ctx.calls(e[0]) if isinstance(x.func, ast.Attribute) and x.func.attr in ("append", "extend")]}
+        bufs |= aug_bufs
         oks = arg is not None and _u(arg) in bufs and len(bufs) == 1
     ck.check("C05.T1", oks, "exactly one _send_lines(buffer) after the loop, with the list the frames were appended to", f"{ctx.fkey(f)}:single-send",
              "send_bytes does not hand the complete frame list to _send_lines exactly once after the loop", ctx.loc(f, sl[0][0] if sl else loops[0]))
@@ -378,8 +406,13 @@ def _t2(ctx: Context) -> None:
             aad, nonce, ct = [strip_sites(T.of(cfg, m, a)) for a in c.args]
             okd = aad == LB and _is_pack(nonce, "<LQ") and nonce[2][0] == ("const", 0) and nonce[2][1][0] == "attr" and nonce[2][1][1] == ("param", "self") and ct == (
                 "sub", buf, ("slice", ("const", FRAME_LENGTH_BYTES), E, None))
-    ck.check("C05.T2", okd, "decrypt(aad = the two length bytes, nonce = PACK_NONCE(receive counter), data = buffer[2:E])", f"{ctx.fkey(f)}:decrypt-args",
-             "data_received: decrypt is not called with (length bytes, PACK_NONCE(counter), buffer[2:E])", ctx.loc(f, decs[0][0] if decs else n))
+    if len(decs) != 1:
+        # the decryption is not (only) in this function - behind a helper the loader could not inline, or split: its
+        # arguments cannot be compared here; not decided rather than reported
+        ck.unknown("C05.T2", f"data_received: expected one decrypt(...) call in the frame loop, found {len(decs)}: its arguments are not decided", ctx.loc(f, n))
+    else:
+        ck.check("C05.T2", okd, "decrypt(aad = the two length bytes, nonce = PACK_NONCE(receive counter), data = buffer[2:E])", f"{ctx.fkey(f)}:decrypt-args",
+                 "data_received: decrypt is not called with (length bytes, PACK_NONCE(counter), buffer[2:E])", ctx.loc(f, decs[0][0]))
     # the length bytes are read before the deletion
     lbs = [m for m in cfg.nodes if m.kind == "stmt" and isinstance(m.ast, ast.Assign) and strip_sites(T.of(cfg, m, m.ast.value)) == LB]
     if lbs and dels:
